@@ -254,6 +254,11 @@ theorem WF_stepOp {cfg s} (o : Op) (h : WF cfg s) : WF cfg (stepOp cfg o s).1 :=
     · exact ⟨h.cache, h.sel, h.diagKeys, h.compatKeys⟩
     · exact h
   | exprSetWs i c cd => exact ⟨h.cache, h.sel, h.diagKeys, h.compatKeys⟩
+  | wrapExpr i =>
+    simp only [stepOp]
+    split
+    · exact ⟨h.cache, h.sel, h.diagKeys, h.compatKeys⟩
+    · exact h
 
 /-! ### exact description of `restore (save s) t` -/
 
@@ -517,6 +522,10 @@ theorem stepOp_builtins (cfg : Cfg) (o : Op) (s : State) :
     left
     simp only [stepOp]
     split <;> exact ⟨rfl, rfl⟩
+  | wrapExpr i =>
+    left
+    simp only [stepOp]
+    split <;> exact ⟨rfl, rfl⟩
   | _ => exact Or.inl ⟨rfl, rfl⟩
 
 theorem enablePackratTail_users (sz : Option Int) (s : State) : (enablePackratTail sz s).users = s.users := by
@@ -539,6 +548,11 @@ theorem stepOp_users (cfg : Cfg) (o : Op) (s : State) (ho : ∀ i c cd, o ≠ .e
   | exprSetWs i ch cd => exact absurd rfl (ho i ch cd)
   | newExpr => exact ⟨[newExpr s], rfl⟩
   | copyExpr i =>
+    simp only [stepOp]
+    split
+    · exact ⟨[_], rfl⟩
+    · exact ⟨[], by simp⟩
+  | wrapExpr i =>
     simp only [stepOp]
     split
     · exact ⟨[_], rfl⟩
